@@ -294,6 +294,8 @@ func checkC04(p *Prog, r *Report) {
 		r.Check("R4", "mutator:"+FnName(og), usesWriteCheckTag(fn), p.Pos(fn.Pos()), "the mutator copies or clears fields by reflection; it reads the writecheck tag: "+fmt.Sprint(usesWriteCheckTag(fn)))
 	}
 	r.Floor("R4", "reflective mutators applied by the engine", len(seenMut), 2)
+	r.Rule("R14", "a reflective mutator replaces the pointer a field holds, it never writes the value the pointer points to: a pointee may be shared — by every item that got it from one identifier-less update, by the application's own data — so writing it changes elements the write does not address, unchangeable ones included")
+	noWriteThroughPointee(p, r, "R14")
 	c04FlagRetention(p, o, r)
 	engineFailureRule(p, r, "R9")
 	mergeTruthTable(p, r, "R10")
@@ -687,4 +689,84 @@ func mustPassInIteration(target ssa.Instruction, eval func(cond ssa.Value) (know
 	}
 	walk(start, 0)
 	return escape
+}
+
+// noWriteThroughPointee: in the reflective code of package model no reflect.Value.Set* is applied to v.Elem() where v is
+// the reflect.Value of a struct *field* (Field, FieldByName, FieldByIndex): that writes the pointee of a pointer field.
+// (Elem() of reflect.ValueOf(ptr) — the struct the mutator was handed — is the ordinary way to reach the fields.)
+func noWriteThroughPointee(p *Prog, r *Report, rule string) {
+	nSet := 0
+	var fieldValue func(v ssa.Value, d int) bool
+	fieldValue = func(v ssa.Value, d int) bool {
+		if d > 6 {
+			return false
+		}
+		switch x := v.(type) {
+		case *ssa.Call:
+			if c := x.Call.StaticCallee(); c != nil && fnPkgPath(c) == "reflect" {
+				switch c.Name() {
+				case "Field", "FieldByName", "FieldByIndex":
+					return true
+				case "Elem", "Indirect":
+					return false
+				}
+			}
+		case *ssa.UnOp:
+			if al, ok := x.X.(*ssa.Alloc); ok && x.Op == token.MUL {
+				if s := singleStore(al); s != nil {
+					return fieldValue(s, d+1)
+				}
+			}
+		case *ssa.Phi:
+			for _, e := range x.Edges {
+				if fieldValue(e, d+1) {
+					return true
+				}
+			}
+		}
+		return false
+	}
+	idx := map[string]int{}
+	seenSite := map[string]bool{}
+	for _, fn := range p.RepoFns("model") {
+		forEachCallOwn(fn, func(site ssa.CallInstruction) {
+			c := site.Common()
+			callee := c.StaticCallee()
+			if callee == nil || fnPkgPath(callee) != "reflect" || !strings.HasPrefix(callee.Name(), "Set") || callee.Signature.Recv() == nil || len(c.Args) == 0 {
+				return
+			}
+			nSet++
+			recv := c.Args[0]
+			// spilled receiver
+			if u, ok := recv.(*ssa.UnOp); ok && u.Op == token.MUL {
+				if al, ok := u.X.(*ssa.Alloc); ok {
+					if s := singleStore(al); s != nil {
+						recv = s
+					}
+				}
+			}
+			el, ok := recv.(*ssa.Call)
+			if !ok {
+				return
+			}
+			ec := el.Call.StaticCallee()
+			if ec == nil || fnPkgPath(ec) != "reflect" || (ec.Name() != "Elem" && ec.Name() != "Indirect") || len(el.Call.Args) == 0 {
+				return
+			}
+			if fieldValue(el.Call.Args[0], 0) {
+				base := FnName(originOf(fn))
+				// instantiations of one generic body report the same source site: keep one
+				if seenSite[base+"@"+p.InstrPos(site)] {
+					return
+				}
+				seenSite[base+"@"+p.InstrPos(site)] = true
+				idx[base]++
+				r.Fail(rule, fmt.Sprintf("%s|pointee-write#%d", base, idx[base]), p.InstrPos(site), "reflect.Value."+callee.Name()+" is applied to the Elem() of a struct field's value: the value a pointer field points to is overwritten in place instead of the pointer being replaced")
+			}
+		})
+	}
+	if len(idx) == 0 {
+		r.Pass(rule, "model|reflective-sets", "", fmt.Sprintf("%d reflective Set calls in package model, none through the pointee of a field", nSet))
+	}
+	r.Floor(rule, "reflective Set calls in package model", nSet, 3)
 }
